@@ -1286,6 +1286,19 @@ class Interp:
                 except KeyError as k:
                     raise Raised(k.args[0], h.version, 0)
             args = [a_.concrete() if isinstance(a_, SStr) and a_.concrete() is not None else a_ for a_ in args]
+            if meth in ('sub', 'subn') and len(args) >= 2 and isinstance(args[1], str) and not isinstance(args[0], (str, bytes, SStr)) \
+                    and all(isinstance(a_, int) for a_ in args[2:]):
+                # pattern.sub(function, text) on a decided text: CPython's engine finds the matches (the pattern is data), the
+                # replacement function is interpreted for each Match object
+                import re as _re
+
+                def repl_(m_):
+                    r2_ = self.apply(args[0], [m_])
+                    r2_ = r2_.concrete() if isinstance(r2_, SStr) else r2_
+                    if not isinstance(r2_, str):
+                        raise AnalysisError('heap model: replacement function returns %r' % (r2_,))
+                    return r2_
+                return getattr(_re.compile(rxv[2], rxv[3]), meth)(repl_, *args[1:], **kwargs)
             if args and isinstance(args[0], str) and all(isinstance(a_, (str, int)) for a_ in args) \
                     and meth in ('finditer', 'findall', 'sub', 'match', 'search', 'fullmatch', 'split'):
                 # a regex constant of the module applied to a decided string: CPython's own regex engine decides (the pattern is data)
